@@ -28,7 +28,7 @@ pub fn config(u: &mut Unstructured) -> Result<Config> {
     let g = crate::cfg::gcd(rate_in, rate_out);
     let (rate_in, rate_out) = if (rate_in / g).max(rate_out / g) > 512 { (rate_in / g % 64 + 1, rate_out / g % 64 + 1) } else { (rate_in, rate_out) };
     let max_rel = if u.ratio(3, 4)? { MAX_RELS[u.int_in_range(0..=MAX_RELS.len() - 1)?] } else { 16f64.powf(unit(u)?) };
-    let kernel = if kind.is_sinc() { [Kernel::Dispatch, Kernel::Scalar, Kernel::Sse, Kernel::Avx, Kernel::RangeProbe][u.int_in_range(0..=4usize)?] } else { Kernel::Dispatch };
+    let kernel = if kind.is_sinc() { [Kernel::Dispatch, Kernel::Scalar, Kernel::Sse, Kernel::Avx, Kernel::RangeProbe, Kernel::OddProbe][u.int_in_range(0..=5usize)?] } else { Kernel::Dispatch };
     Ok(Config {
         kind,
         f32: u.arbitrary()?,
